@@ -63,5 +63,19 @@ Definition wf_global_names (m : module) : bool :=
   forallb (fun g => match g_name g with Some _ => true | None => false end) (globals m)
   && str_nodup (global_names m).
 
+(** struct types are named, with pairwise distinct names *)
+Definition struct_names (m : module) : list string :=
+  flat_map (fun t => match t_inner t, t_name t with TStruct _ _, Some n => [n] | _, _ => [] end) (types m).
+Definition wf_struct_names (m : module) : bool :=
+  forallb (fun t => match t_inner t, t_name t with TStruct _ _, None => false | _, _ => true end) (types m)
+  && str_nodup (struct_names m).
+
 Definition wf (m : module) : bool :=
-  wf_global_types m && wf_calls m && wf_types m && wf_global_names m.
+  wf_global_types m && wf_calls m && wf_types m && wf_global_names m && wf_struct_names m.
+
+Lemma wf_proj m : wf m = true ->
+  wf_global_types m = true /\ wf_calls m = true /\ wf_types m = true /\ wf_global_names m = true
+  /\ wf_struct_names m = true.
+Proof.
+  unfold wf. intros H. repeat (apply andb_true_iff in H as [H ?]). auto.
+Qed.
